@@ -3,6 +3,7 @@
 package osmxml
 
 import (
+	"encoding/xml"
 	"bytes"
 	"context"
 	"fmt"
@@ -120,4 +121,99 @@ func oracleC07XMLClose(nNodes int, stop int) {
 	vAssert(!s.Scan())
 	vAssert(r.pos == before)
 	vAssert(s.Err() == osm.ErrScannerClosed)
+}
+
+func c03Clean(o *osm.OSM) {
+	if o == nil {
+		return
+	}
+	var ns osm.Nodes
+	for _, x := range o.Nodes {
+		if x != nil {
+			x.XMLName.Space, x.XMLName.Local = "", ""
+			ns = append(ns, x)
+		}
+	}
+	o.Nodes = ns
+	var ws osm.Ways
+	for _, x := range o.Ways {
+		if x != nil {
+			x.XMLName.Space, x.XMLName.Local = "", ""
+			ws = append(ws, x)
+		}
+	}
+	o.Ways = ws
+	var rs osm.Relations
+	for _, x := range o.Relations {
+		if x != nil {
+			x.XMLName.Space, x.XMLName.Local = "", ""
+			rs = append(rs, x)
+		}
+	}
+	o.Relations = rs
+	o.Changesets, o.Notes, o.Users = nil, nil, nil
+}
+
+// C03: "The streaming XML scanner yields the same objects, in document order,
+// as decoding the whole document at once" -- for <osm> documents and for
+// osmChange documents with any interleaving of create/modify/delete blocks.
+//
+//@ func oracleC03ScanEqualsDecode
+//@   props C03
+//@   oracle
+func oracleC03ScanEqualsDecode(a osm.OSM, b osm.OSM, asChange bool) {
+	c03Clean(&a)
+	c03Clean(&b)
+	var data []byte
+	var err error
+	var want []string // whole-document decode, objects in document order, as re-marshalled text
+	text := func(x interface{}) string {
+		t, _ := xml.Marshal(x)
+		return string(t)
+	}
+	collect := func(o *osm.OSM) {
+		if o == nil {
+			return
+		}
+		if o.Bounds != nil {
+			want = append(want, text(o.Bounds))
+		}
+		for _, x := range o.Nodes {
+			want = append(want, text(x))
+		}
+		for _, x := range o.Ways {
+			want = append(want, text(x))
+		}
+		for _, x := range o.Relations {
+			want = append(want, text(x))
+		}
+	}
+	if asChange {
+		c := osm.Change{Create: &a, Delete: &b}
+		data, err = xml.Marshal(c)
+		vAssume(err == nil)
+		var back osm.Change
+		vAssume(xml.Unmarshal(data, &back) == nil)
+		collect(back.Create)
+		collect(back.Modify)
+		collect(back.Delete)
+	} else {
+		data, err = xml.Marshal(a)
+		vAssume(err == nil)
+		var back osm.OSM
+		vAssume(xml.Unmarshal(data, &back) == nil)
+		collect(&back)
+	}
+	s := New(context.Background(), bytes.NewReader(data))
+	var got []string
+	for s.Scan() {
+		got = append(got, text(s.Object()))
+	}
+	vAssert(s.Err() == nil)
+	vAssert(len(got) == len(want))
+	for i := range want {
+		if i < len(got) {
+			vAssert(got[i] == want[i])
+		}
+	}
 }
